@@ -163,6 +163,11 @@ var libAxioms = map[string]libAx{
 		"(assert (forall ((s Str)) (! (and (>= (len_L_Str (L_strings_Fields s)) 0) (= (off_L_Str (L_strings_Fields s)) 0)) :pattern ((L_strings_Fields s)))))",
 		"(assert (forall ((s Str) (i Int)) (! (=> (and (<= 0 i) (< i (len_L_Str (L_strings_Fields s)))) (> (str_len (select (arr_L_Str (L_strings_Fields s)) i)) 0)) :pattern ((select (arr_L_Str (L_strings_Fields s)) i)))))",
 	}},
+	"strings.Join": {nil, []string{
+		"(assert (forall ((s L_Str) (p Str)) (! (=> (= (len_L_Str s) 1) (= (L_strings_Join s p) (select (arr_L_Str s) (off_L_Str s)))) :pattern ((L_strings_Join s p)))))",
+		"(assert (forall ((s L_Str) (p Str)) (! (=> (= (len_L_Str s) 2) (= (L_strings_Join s p) (str_cat (select (arr_L_Str s) (off_L_Str s)) (str_cat p (select (arr_L_Str s) (+ (off_L_Str s) 1)))))) :pattern ((L_strings_Join s p)))))",
+		"(assert (forall ((s L_Str) (p Str)) (! (=> (= (len_L_Str s) 0) (= (str_len (L_strings_Join s p)) 0)) :pattern ((L_strings_Join s p)))))",
+	}},
 	"strings.Index": {nil, []string{
 		"(assert (forall ((s Str) (p Str)) (! (or (= (L_strings_Index s p) (- 1)) (and (<= 0 (L_strings_Index s p)) (<= (+ (L_strings_Index s p) (str_len p)) (str_len s)))) :pattern ((L_strings_Index s p)))))",
 	}},
